@@ -362,6 +362,30 @@ macro_rules! with_unit {
     };
 }
 
+/// History independence (seed C17-4): every other call first renders / converts the same raw value at the three
+/// other units; a formatter or parser that remembers its last conversion must not let it leak across units.
+fn prime(x: i64, u: usize) {
+    use std::sync::atomic::{AtomicUsize, Ordering};
+    static N: AtomicUsize = AtomicUsize::new(0);
+    let n = N.fetch_add(1, Ordering::Relaxed);
+    if n % 2 == 1 {
+        return;
+    }
+    let rot = x.rem_euclid(3) as usize;
+    for k in 0..3 {
+        let v = (u + 1 + (k + rot) % 3) % 4;
+        let op = (n / 2 + k) % 3;
+        let _ = with_unit!(v, V, guarded(move || {
+            let d = DateTime::<V>::new(x);
+            match op {
+                0 => { let _ = d.as_cr(); }
+                1 => { let _ = d.year(); }
+                _ => { let _ = d.strftime(None); }
+            }
+        }));
+    }
+}
+
 fn opt_cell(r: Result<Option<i64>, u8>) -> Cell {
     match r {
         Err(k) => Cell::Panic(k),
@@ -398,12 +422,15 @@ fn dt_cast_cell(u: usize, s: &str) -> Cell {
     })))
 }
 fn dt_format(u: usize, x: i64, fmt: Option<&'static str>) -> Result<String, u8> {
+    prime(x, u);
     with_unit!(u, U, guarded(move || DateTime::<U>::new(x).strftime(fmt)))
 }
 fn dt_debug(u: usize, x: i64) -> Result<String, u8> {
+    prime(x, u);
     with_unit!(u, U, guarded(move || format!("{:?}", DateTime::<U>::new(x))))
 }
 fn dt_year(u: usize, x: i64) -> Option<i32> {
+    prime(x, u);
     with_unit!(u, U, guarded(move || DateTime::<U>::new(x).year()).ok().flatten())
 }
 
